@@ -3,6 +3,7 @@ mod frames;
 mod keyupdate;
 mod ranges;
 mod reasm;
+mod spsc;
 mod tparams;
 mod util;
 
@@ -14,6 +15,7 @@ fn main() {
         "frames-replay" => frames::replay(rest),
         "frames-record" => frames::record(rest),
         "packets-record" => frames::record_packets(rest),
+        "spsc-record" => spsc::record(rest),
         "cc-run" => cc::run(rest),
         "reasm-replay" => reasm::replay(rest),
         "reasm-record" => reasm::record(rest),
